@@ -538,10 +538,16 @@ def record_trace(rng, nops, ops, nnames=5):
     rb = {}
     for vid in list(conc.val) + list(conc.new):
         rb[conc.readback(vid)] = str(vid)
-    for _ in range(nops):
+    # size stress: a big document ends with one sort_fields per paragraph (thresholds in the sort)
+    forced = list(range(1, 12)) if nnames > 12 and "sort" in ops else []
+    for step in range(nops + len(forced)):
         op = rng.choice(ops)
         paras = list(f)
         p = rng.randint(1, max(1, len(paras)))
+        if step >= nops:
+            if forced[step - nops] > len(paras):
+                break
+            op, p = "sort", forced[step - nops]
         n, r = rng.randint(1, nnames), rng.randint(1, nnames)
         par = paras[p - 1] if paras else None
         present = [rank[str(k).lower()] for k in par.keys()] if par is not None else []
